@@ -501,6 +501,9 @@ type CliCase struct {
 	Boots   []*ref.Node `json:"boots"`
 	Method  string      `json:"method"` // fbp | tbe | classical | booster
 	Threads int         `json:"threads"`
+	Extra  []string `json:"extra,omitempty"` // further options of tbe / booster: -r raw.nw, --moved-taxa, --per-branches, -l log file
+	Bad    string   `json:"bad,omitempty"`   // "" | mismatch (a bootstrap tree on other taxa) | broken (a record that is not a tree)
+	BadPos int      `json:"bad_pos,omitempty"`
 }
 
 // supportsOfModel lists, per split, the supports shown in a Newick text.
@@ -543,7 +546,17 @@ func checkCli(c CliCase) error {
 	}
 	dir := cli.Scratch()
 	var boots strings.Builder
-	for _, m := range c.Boots {
+	for i, m := range c.Boots {
+		if c.Bad != "" && i == c.BadPos%len(c.Boots) {
+			if c.Bad == "mismatch" {
+				mm := m.Clone()
+				mm.TipNodes()[c.BadPos%len(mm.TipNodes())].Name = "zz_other"
+				boots.WriteString(ref.Write(mm) + "\n")
+			} else {
+				boots.WriteString("((a,b),c;\n")
+			}
+			continue
+		}
 		boots.WriteString(ref.Write(m) + "\n")
 	}
 	args := []string{"compute", "support", c.Method, "-i", cli.Write(dir, "ref.nw", ref.Write(c.Ref)+"\n"), "-b", cli.Write(dir, "boot.nw", boots.String()), "-t", strconv.Itoa(c.Threads), "--silent"}
@@ -551,8 +564,21 @@ func checkCli(c CliCase) error {
 	if toFile {
 		args = append(args, "-o", "sup.nw")
 	}
+	if c.Method == "tbe" || c.Method == "booster" {
+		args = append(args, c.Extra...)
+	}
 	r := cli.Run(dir, "", args...)
 	ctx := fmt.Sprintf(" (gotree %v)\n ref %s\n%s", args, ref.Write(c.Ref), boots.String())
+	if c.Bad != "" {
+		// a bootstrap tree on other taxa, or a record that is not a tree: no support can be given
+		if r.TimedOut || r.Panicked() {
+			return fmt.Errorf("the command hangs or crashes on a bad bootstrap tree (%s at position %d): %s%s", c.Bad, c.BadPos%len(c.Boots), r.Stderr, ctx)
+		}
+		if r.Code == 0 {
+			return fmt.Errorf("a bad bootstrap tree (%s at position %d) is not reported: exit status 0, output %q%s", c.Bad, c.BadPos%len(c.Boots), r.Stdout+cli.Read(dir, "sup.nw"), ctx)
+		}
+		return nil
+	}
 	if r.Code != 0 || r.TimedOut {
 		return fmt.Errorf("command failed with status %d: %s%s", r.Code, r.Stderr, ctx)
 	}
@@ -596,14 +622,31 @@ func checkCli(c CliCase) error {
 func TestC10Cli(t *testing.T) {
 	h.Run(t, h.Spec[CliCase]{
 		Property: "C10", Name: "cli", Quick: 1600, Thorough: 32000,
-		Rule: "the same reference + bootstrap collections through `gotree compute support fbp|classical|tbe|booster -i ref -b boots -t 1..8`: the supports printed in the output tree are compared, split by split, with the brute-force definitions; non-trivial = >= 2 bootstrap trees",
+		Rule: "the same reference + bootstrap collections through `gotree compute support fbp|classical|tbe|booster -i ref -b boots -t 1..8`: the supports printed in the output tree are compared, split by split, with the brute-force definitions, for tbe / booster also with -r raw tree, -l log file, --moved-taxa, --per-branches; in one case in five a bootstrap tree is on other taxa or is not a tree: the command must end with a non-zero status; non-trivial = >= 2 bootstrap trees",
 		Gen: func(t *rapid.T, thorough bool) CliCase {
 			b := genCase(t, false)
-			return CliCase{Ref: b.Ref, Boots: b.Boots, Method: rapid.SampledFrom([]string{"fbp", "tbe", "classical", "booster"}).Draw(t, "method"), Threads: rapid.SampledFrom([]int{1, 1, 2, 4, 8}).Draw(t, "threads")}
+			c := CliCase{Ref: b.Ref, Boots: b.Boots, Method: rapid.SampledFrom([]string{"fbp", "tbe", "classical", "booster"}).Draw(t, "method"), Threads: rapid.SampledFrom([]int{1, 1, 2, 4, 8}).Draw(t, "threads")}
+			if rapid.Bool().Draw(t, "rawout") {
+				c.Extra = append(c.Extra, "-r", "raw.nw")
+			}
+			if rapid.Bool().Draw(t, "logs") {
+				c.Extra = append(c.Extra, "-l", "tbe.log")
+				if rapid.Bool().Draw(t, "moved") {
+					c.Extra = append(c.Extra, "--moved-taxa")
+				}
+				if rapid.Bool().Draw(t, "perbr") {
+					c.Extra = append(c.Extra, "--per-branches")
+				}
+			}
+			if rapid.IntRange(0, 4).Draw(t, "hasbad") == 2 {
+				c.Bad = rapid.SampledFrom([]string{"mismatch", "broken"}).Draw(t, "bad")
+				c.BadPos = rapid.IntRange(0, 20).Draw(t, "badpos")
+			}
+			return c
 		},
 		Check: checkCli,
 		Classify: func(c CliCase) (bool, []string) {
-			return len(c.Boots) >= 2, []string{"method:" + c.Method, fmt.Sprintf("threads:%d", c.Threads)}
+			return len(c.Boots) >= 2, []string{"method:" + c.Method, fmt.Sprintf("threads:%d", c.Threads), "bad:" + c.Bad, fmt.Sprintf("extra-options:%d", len(c.Extra))}
 		},
 	})
 }
